@@ -6,6 +6,7 @@ fn main() {
     } else {
         mc_desc::catalogue::build(mc_desc::catalogue::Tier::Quick)
     };
+    mc_core::names::set_wide_probe(cat_wide::wide_names_probe);
     assert_eq!(entries.len(), cat.roots.len());
     std::process::exit(mc_core::main_with(entries, cat));
 }
